@@ -18,6 +18,7 @@ import (
 )
 
 func main() {
+	lay.MaybeChild()
 	engine := flag.String("engine", "both", "")
 	gen := flag.String("gen", "", "profile to generate instead of reading stdin")
 	seed := flag.Int64("seed", 1, "")
